@@ -3492,3 +3492,160 @@ pub fn c16_executor_request(nd: &mut Nondet) {
     }
     if fail_at == 0 { check("c16x.healthy-carrier-gets-the-whole-request", sent); }
 }
+
+// ------------------------------------------------------------------------------------------ C20 at message level (prost framing included)
+use litep2p::protocol::libp2p::bitswap::verif_hooks_message as bsm;
+use litep2p::protocol::libp2p::bitswap::{BlockPresenceType, ResponseType};
+
+fn pb_bytes_field(out: &mut Vec<u8>, tag: u64, data: &[u8]) {
+    push_varint(out, (tag << 3) | 2);
+    push_varint(out, data.len() as u64);
+    out.extend_from_slice(data);
+}
+fn pb_varint_field(out: &mut Vec<u8>, tag: u64, value: u64) {
+    push_varint(out, tag << 3);
+    push_varint(out, value);
+}
+/// (field number, wire type, payload bytes or varint value) of every top-level field of a protobuf message
+fn pb_fields(mut data: &[u8]) -> Option<Vec<(u64, Vec<u8>, u64)>> {
+    let mut out = Vec::new();
+    while !data.is_empty() {
+        let (key, rest) = unsigned_varint::decode::u64(data).ok()?;
+        match key & 7 {
+            0 => { let (v, rest) = unsigned_varint::decode::u64(rest).ok()?; out.push((key >> 3, Vec::new(), v)); data = rest; }
+            2 => {
+                let (len, rest) = unsigned_varint::decode::usize(rest).ok()?;
+                if rest.len() < len { return None; }
+                out.push((key >> 3, rest[..len].to_vec(), 0));
+                data = &rest[len..];
+            }
+            _ => return None,
+        }
+    }
+    Some(out)
+}
+
+fn sha256_cid(codec: u64, data: &[u8]) -> cid::Cid {
+    let mh = Code::Sha2_256.digest(data);
+    cid::Cid::new_v1(codec, cid::multihash::Multihash::<64>::wrap(mh.code(), mh.digest()).expect("fits"))
+}
+
+/// C20 (receive side, whole message): every block reported to the user carries the CID recomputed from *its own*
+/// data, acceptable blocks are all reported, in message order, whatever unacceptable blocks sit between them.
+pub fn c20_message_received(nd: &mut Nondet) {
+    let mut manager = TransportManagerBuilder::new().build();
+    let mut kernel = bsm::new_kernel(&mut manager);
+    let peer = nd.peer_id_fixed(1);
+    let n = 1 + nd.choose("blocks", 3) as usize;
+    let mut message: Vec<u8> = Vec::new();
+    let mut expected: Vec<(cid::Cid, Vec<u8>)> = Vec::new();
+    for i in 0..n {
+        let data: Vec<u8> = (0..i + 1).map(|k| 0x30 + (i * 4 + k) as u8).collect();
+        let mut prefix = Vec::new();
+        match nd.choose("block_kind", 4) {
+            0 => { for v in [1u64, 0x55, 0x12, 32] { push_varint(&mut prefix, v); } expected.push((sha256_cid(0x55, &data), data.clone())); }
+            1 => { for v in [1u64, 0x70, 0x12, 32] { push_varint(&mut prefix, v); } expected.push((sha256_cid(0x70, &data), data.clone())); }
+            2 => { for v in [1u64, 0x55, 0x11, 20] { push_varint(&mut prefix, v); } }      // sha1: not a compiled-in hash
+            _ => { prefix.push(0xff); }                                                    // garbage
+        }
+        let mut block = Vec::new();
+        pb_bytes_field(&mut block, 1, &prefix);
+        pb_bytes_field(&mut block, 2, &data);
+        pb_bytes_field(&mut message, 3, &block);
+    }
+    let presence_cid = sha256_cid(0x55, &[9u8]);
+    let with_presence = nd.bool("with_presence");
+    if with_presence {
+        let mut presence = Vec::new();
+        pb_bytes_field(&mut presence, 1, &presence_cid.to_bytes());
+        pb_varint_field(&mut presence, 2, 1);
+        pb_bytes_field(&mut message, 4, &presence);
+    }
+    match bsm::message_received(&mut kernel, peer, &message) {
+        None => { check("c20m.handler-does-not-suspend", false); return; }
+        Some(ok) => check("c20m.wellformed-message-is-handled", ok),
+    }
+    let mut blocks: Vec<(cid::Cid, Vec<u8>)> = Vec::new();
+    let mut presences = 0usize;
+    while let Some((from, responses)) = bsm::next_response(&mut kernel) {
+        check("c20m.response-names-the-sender", from == peer);
+        for entry in responses {
+            match entry {
+                ResponseType::Block { cid, block } => blocks.push((cid, block)),
+                ResponseType::Presence { cid, presence } => {
+                    presences += 1;
+                    check("c20m.presence-is-what-was-sent", cid == presence_cid && matches!(presence, BlockPresenceType::DontHave));
+                }
+            }
+        }
+    }
+    for (cid, block) in blocks.iter() {
+        check("c20m.reported-cid-is-recomputed-from-the-reported-data", *cid == sha256_cid(cid.codec(), block));
+    }
+    check("c20m.every-acceptable-block-is-reported-once-in-order", blocks == expected);
+    check("c20m.presences-are-reported", presences == if with_presence { 1 } else { 0 });
+    if expected.is_empty() { cover("c20m.nothing-acceptable"); } else { cover("c20m.blocks-reported"); }
+    if expected.len() < n { cover("c20m.some-block-dropped"); }
+}
+
+/// C20 (send side, whole response): what `send_response` puts on the wire carries every block exactly once, in the
+/// order given, each with the prefix of its own CID, and every presence once - however presences and blocks are mixed.
+pub fn c20_send_response(nd: &mut Nondet) {
+    let peer = nd.peer_id_fixed(1);
+    let mut wire: Vec<u8> = Vec::new();
+    let io = ScriptedIo::new(nd, Vec::new()).with_sink(&mut wire as *mut Vec<u8>);
+    let mut sub = Substream::new_verif(peer, SubstreamId::from(0usize), Box::new(io), ProtocolCodec::UnsignedVarint(Some(4 * 1024 * 1024)));
+    let n = 1 + nd.choose("entries", 4) as usize;
+    let mut entries: Vec<ResponseType> = Vec::new();
+    let mut blocks: Vec<(cid::Cid, Vec<u8>)> = Vec::new();
+    let mut presences: Vec<cid::Cid> = Vec::new();
+    for i in 0..n {
+        let data: Vec<u8> = (0..i + 1).map(|k| 0x40 + (i * 5 + k) as u8).collect();
+        let cid = sha256_cid(if i % 2 == 0 { 0x55 } else { 0x70 }, &data);
+        if nd.bool("is_presence") {
+            entries.push(ResponseType::Presence { cid, presence: BlockPresenceType::Have });
+            presences.push(cid);
+        } else {
+            entries.push(ResponseType::Block { cid, block: data.clone() });
+            blocks.push((cid, data));
+        }
+    }
+    match bsm::send_response_now(&mut sub, entries) {
+        None => { cover("c20s.suspended"); return; }       // a scripted Pending of the carrier: the caller polls again
+        Some(ok) => check("c20s.healthy-carrier-send-succeeds", ok),
+    }
+    // parse the wire: length-delimited frames, each a bitswap Message
+    let (frames, partial) = wire_frames(&wire);
+    check("c20s.only-whole-messages-on-the-wire", partial.is_empty());
+    let mut sent_blocks: Vec<(Vec<u8>, Vec<u8>)> = Vec::new();       // (prefix, data)
+    let mut sent_presences: Vec<Vec<u8>> = Vec::new();
+    for frame in frames.iter() {
+        let fields = match pb_fields(frame) { Some(f) => f, None => { check("c20s.frames-are-protobuf-messages", false); return; } };
+        for (tag, payload, _) in fields {
+            if tag == 3 {
+                let inner = match pb_fields(&payload) { Some(f) => f, None => { check("c20s.blocks-are-protobuf-messages", false); return; } };
+                let mut prefix = Vec::new();
+                let mut data = Vec::new();
+                for (t, p, _) in inner { if t == 1 { prefix = p; } else if t == 2 { data = p; } }
+                sent_blocks.push((prefix, data));
+            } else if tag == 4 {
+                let inner = match pb_fields(&payload) { Some(f) => f, None => { check("c20s.presences-are-protobuf-messages", false); return; } };
+                for (t, p, _) in inner { if t == 1 { sent_presences.push(p); } }
+            }
+        }
+    }
+    check("c20s.every-block-sent-exactly-once", sent_blocks.len() == blocks.len());
+    for k in 0..sent_blocks.len().min(blocks.len()) {
+        let (cid, data) = &blocks[k];
+        check("c20s.blocks-go-out-in-the-order-given", sent_blocks[k].1 == *data);
+        let mut prefix = Vec::new();
+        for v in [1u64, cid.codec(), 0x12, 32] { push_varint(&mut prefix, v); }
+        check("c20s.block-carries-the-prefix-of-its-own-cid", sent_blocks[k].0 == prefix);
+    }
+    check("c20s.every-presence-sent-exactly-once", sent_presences.len() == presences.len());
+    for k in 0..sent_presences.len().min(presences.len()) {
+        check("c20s.presences-go-out-in-the-order-given", sent_presences[k] == presences[k].to_bytes());
+    }
+    if !blocks.is_empty() && !presences.is_empty() { cover("c20s.mixed"); }
+    cover("c20s.sent");
+}
